@@ -174,13 +174,49 @@ struct SeqResult {
     nontrivial: bool,
 }
 
+/// Three versions of another actor (rows 901..=903), delivered to the node before the requests in
+/// the variant `with_remote`: the node then already holds somebody else's changes at the very
+/// version numbers its own transactions are going to take.
+static REMOTE: std::sync::OnceLock<Vec<ChangeV1>> = std::sync::OnceLock::new();
+
+fn remote_versions() -> &'static Vec<ChangeV1> {
+    REMOTE.get_or_init(|| {
+        let tpl = Template::build(1, SCHEMA);
+        let s = Scratch::new("ltx_r");
+        let p = tpl.instantiate(&s.path().join("r"));
+        let mut w = RtNode::open(&p, NodeOpts::default());
+        let mut out = vec![];
+        for i in 1..=3 {
+            let (st, _b, bc) = w.run(async |nd| nd.write(vec![ins(900 + i, "remote", "remote")], None).await);
+            assert_eq!(st, 200);
+            out.push(bc[0].clone());
+        }
+        out
+    })
+}
+
 fn run_seq(tpl: &Template, seq: &[Req]) -> SeqResult {
+    let a = run_seq_v(tpl, seq, false);
+    if !a.violations.is_empty() {
+        return a;
+    }
+    let b = run_seq_v(tpl, seq, true);
+    SeqResult { violations: b.violations, outcome: digest(&(a.outcome, b.outcome)), nontrivial: a.nontrivial || b.nontrivial }
+}
+
+fn run_seq_v(tpl: &Template, seq: &[Req], with_remote: bool) -> SeqResult {
     let s = Scratch::new("ltx");
     let p = tpl.instantiate(&s.path().join("n"));
     let mut node = RtNode::open(&p, NodeOpts::default());
     let seq = seq.to_vec();
+    let remote = if with_remote { remote_versions().clone() } else { vec![] };
     node.run(async |nd| {
         let mut rows: Rows = Rows::new();
+        for (i, v) in remote.iter().enumerate() {
+            nd.deliver(vec![v.clone()]).await.unwrap_or_else(|e| machinery_error(&format!("remote history: {e}")));
+            rows.insert(901 + i as i64, ("remote".into(), "remote".into()));
+        }
+        while nd.clear_one().await.is_some() {}
         let mut counter = 0u64;
         let mut violations: Vec<(String, Value)> = vec![];
         let mut failed = 0;
